@@ -76,12 +76,17 @@ def nontrivial(case, text):
 
 
 def random_cases(acc, enc, n, seed):
+    # all four encoders take turns in every process (anything one of them leaves behind
+    # in the process is met by the others); *enc* only rotates the order
+    order = list(ENCODERS[ENCODERS.index(enc):] + ENCODERS[:ENCODERS.index(enc)])
+
     @hseed(seed)
     @settings(max_examples=n, database=None, deadline=None,
               phases=[Phase.generate],
               suppress_health_check=list(HealthCheck))
-    @given(c01.cases(enc))
+    @given(st.sampled_from(order).flatmap(c01.cases))
     def body(case):
+        enc = case["enc"]
         if acc.expired():
             acc.notes["budget_exhausted"] = 1
             return
